@@ -12,6 +12,20 @@ def hook_commits():
         return []
 
 CHECKS = {
+    "C01": dict(
+        category="exploration",
+        technique="deterministic simulation: seeded operation histories and scoped programs with injected failures vs stack-of-maps model",
+        text="Seeded search over (a) operation histories on a real State (every registry and entry-API operation, explicit scope push/pop, with_inner_state and holding with closures that succeed or fail, nested) in lock-step with a Vec<BTreeMap> model: every return value and, after every operation, the content of every scope level must agree; (b) generated configurations whose probe leaves run such scripts, so that scopes are pushed and popped by the real Scope component, fault-free or with one injected failure that forces scope exits. Sampling, no exhaustive bound.",
+        note="Oracle is the stack-of-maps model in sim/src/engine/ops.rs. Apart from failure-forced scope exits the property contains no schedule or fault; most of this check is a reference-model history check driven by the simulator's seeded generator.",
+        design_ref="5/C01",
+    ),
+    "C02": dict(
+        category="exploration",
+        technique="deterministic simulation: seeded guard histories vs reader/writer model, multi-borrow tuple catalogue, nested holding with failing closures",
+        text="Seeded search over guard micro-histories (guards kept alive in an arena while further shared/exclusive requests, reads, writes, drops, value get/set are issued at the top scope or at ancestors, the same type present in several scopes; panicking accessors under catch_unwind) against a reader-count/writer-flag model per (scope, type); a fixed catalogue of 175 type tuples of arity 2..8 (distinct, reversed, every single repeat, double repeat, absent types) against seeded scope layouts with distinctness of the returned references and visibility of writes; histories of holding nested to depth 3 with closure failures.",
+        note="Oracle models in sim/src/checks/c02.rs and engine/ops.rs. No schedule is involved (the registry is single-threaded); the only faults are closure failures inside holding.",
+        design_ref="5/C02",
+    ),
     "C03": dict(
         category="fault_enumeration",
         technique="deterministic simulation: seeded configuration trees x every single fault point, trace vs reference interpreter",
